@@ -223,7 +223,8 @@ func parseYacc(path string) (*yGrammar, error) {
 			for k < n && (body[k] == ' ' || body[k] == '\t' || body[k] == '\n' || body[k] == '\r') {
 				k++
 			}
-			if k < n && body[k] == ':' && lhs == "" {
+			if k < n && body[k] == ':' {
+				flush() // a rule may end without ';'
 				lhs = word
 				cur = &yRule{LHS: lhs, Line: lineOf(i)}
 				i = k + 1
